@@ -32,8 +32,16 @@ fn main() {
     let log = tmp.path().join("cc.log");
     let bindir = tmp.path().join("bin"); std::fs::create_dir_all(&bindir).unwrap();
     let wrapper = bindir.join("gcc");
+    let installs = Cell::new(0u32);
     let install = |content: u32, mtime: i64| {
-        // replace the binary the way an installer does: new inode, then rename over the path
+        installs.set(installs.get() + 1);
+        if installs.get() % 2 == 0 && wrapper.exists() {
+            // every second time the file is overwritten in place (`cp new old`): same inode, same length, other contents
+            std::fs::write(&wrapper, format!("#!/bin/sh\n# variant {}\necho run >> {}\nexec /usr/bin/gcc \"$@\"\n", content, log.display())).unwrap();
+            filetime::set_file_mtime(&wrapper, filetime::FileTime::from_unix_time(1_600_000_000 + mtime, 0)).unwrap();
+            return;
+        }
+        // otherwise the binary is replaced the way an installer does: new inode, then rename over the path
         let t = bindir.join(".new");
         std::fs::write(&t, format!("#!/bin/sh\n# variant {}\necho run >> {}\nexec /usr/bin/gcc \"$@\"\n", content, log.display())).unwrap();
         use std::os::unix::fs::PermissionsExt;
@@ -69,7 +77,16 @@ fn main() {
         let (kl, st, svc) = new_service();
         truth.push(request(&svc, &kl, &st).0);
     }
-    assert!(truth.iter().collect::<std::collections::HashSet<_>>().len() == 4, "wrapper contents must give distinct keys");
+    if truth.iter().collect::<std::collections::HashSet<_>>().len() != 4 {
+        // not a harness precondition but the property itself: four different compilers (equal length, installed one after the other at one path) must not
+        // share a key, not even across the servers of one process
+        let a: Vec<String> = std::env::args().collect();
+        let ops: Vec<String> = truth.iter().enumerate().map(|(c, k)| format!("wrapper variant {} installed at the compiler path (rename over it, mtime 50); a fresh server keys the request {}", c, k)).collect();
+        let f = fail_json("different_compilers_same_key", "wrapper scripts with different contents installed one after the other at one path get the same key from fresh servers of this process (something outlives the server's own compiler memo)", &ops, "");
+        std::fs::File::create(&a[2]).unwrap();
+        std::fs::write(&a[3], format!("{{\"name_requests\":0,\"histories\":0,\"requests\":4,\"content_swaps\":3,\"histories_within_hypothesis\":0,\"redetections\":0,\"monitor_failures\":[{}],\"samples\":[]}}", f)).unwrap();
+        return;
+    }
     let rngc = std::cell::RefCell::new(Rng::from_env());
     let rnd = |n: u64| -> u64 { rngc.borrow_mut().below(n) };
     let a: Vec<String> = std::env::args().collect();
